@@ -4,7 +4,7 @@
     lock path absent ([None]) or left behind with content [q] ([Some q]).
 
     FULL STATEMENT (false of the code as it is, see [mutex_with_stale_lock_refuted]):
-      forall dead l0 sched p q, let s := exec dead false (init l0) sched in
+      forall dead dbl l0 sched p q, let s := exec dead false dbl (init l0) sched in
         holds s p = true -> holds s q = true -> p = q.
     What is proved of the code as it is: the same under the exact guard "the initial link does not name
     a dead pid" ([mutex_without_dead_owner]); and, for the protocol with an atomic compare-and-remove in
@@ -16,19 +16,19 @@ Import ListNotations.
 
 (** code as it is, no stale lock at the start: at most one holder at any time, and the link content is
     the holder's pid -- for every N and every interleaving of lock()/unlock() calls *)
-Theorem mutex_without_dead_owner : forall (dead : pid -> bool) (l0 : option pid) (sched : list pid),
+Theorem mutex_without_dead_owner : forall (dead dbl : pid -> bool) (l0 : option pid) (sched : list pid),
   (forall d, l0 = Some d -> dead d = false) ->
-  let s := exec dead false (init l0) sched in
+  let s := exec dead false dbl (init l0) sched in
   (forall p, holds s p = true -> link s = Some p /\ dead p = false)
   /\ (forall p q, holds s p = true -> holds s q = true -> p = q).
-Proof. intros dead l0 sched G. apply mutex_guarded. right. exact G. Qed.
+Proof. intros dead dbl l0 sched G. apply mutex_guarded. right. exact G. Qed.
 Print Assumptions mutex_without_dead_owner.
 
 (** code as it is, stale lock of dead pid 2, contenders 0 and 1: after
     0:symlink(EEXIST) 0:readlink 0:kill(ESRCH) | 1:symlink(EEXIST) 1:readlink 1:kill(ESRCH) 1:rmlink 1:symlink(ok)
     | 0:rmlink (removes 1's link) 0:symlink(ok)   both lock() calls have returned True *)
 Theorem mutex_with_stale_lock_refuted : exists (dead : pid -> bool) (l0 : option pid) (sched : list pid) (p q : pid),
-  let s := exec dead false (init l0) sched in
+  let s := exec dead false (fun _ => false) (init l0) sched in
   p <> q /\ holds s p = true /\ holds s q = true.
 Proof.
   exists f21_dead, (Some 2), f21_sched, 0, 1.
@@ -37,44 +37,46 @@ Qed.
 Print Assumptions mutex_with_stale_lock_refuted.
 
 (** with an atomic compare-and-remove in the stale path the full statement holds: any initial link *)
-Theorem mutex_with_atomic_break : forall (dead : pid -> bool) (l0 : option pid) (sched : list pid),
-  let s := exec dead true (init l0) sched in
+Theorem mutex_with_atomic_break : forall (dead dbl : pid -> bool) (l0 : option pid) (sched : list pid),
+  let s := exec dead true dbl (init l0) sched in
   (forall p, holds s p = true -> link s = Some p /\ dead p = false)
   /\ (forall p q, holds s p = true -> holds s q = true -> p = q).
-Proof. intros dead l0 sched. apply mutex_guarded. left. reflexivity. Qed.
+Proof. intros dead dbl l0 sched. apply mutex_guarded. left. reflexivity. Qed.
 Print Assumptions mutex_with_atomic_break.
 
 (** a holder can always release (no stale lock at the start): whatever the other processes do between
     the two primitive calls of its unlock(), readlink returns its own pid, rmlink removes the link and
     unlock() returns *)
-Theorem holder_can_release : forall (dead : pid -> bool) (l0 : option pid) (sched : list pid) p c others,
+Theorem holder_can_release : forall (dead dbl : pid -> bool) (l0 : option pid) (sched : list pid) p c others,
   (forall d, l0 = Some d -> dead d = false) ->
-  let s := exec dead false (init l0) sched in
+  let s := exec dead false dbl (init l0) sched in
   pc s p = Held c ->
   Forall (fun q => q <> p) others ->
-  let s2 := exec dead false (step dead false s p) others in
-  snd (stepe dead false s p) = EUReadOwn /\ holds s2 p = true
-  /\ snd (stepe dead false s2 p) = EURmOk
-  /\ link (step dead false s2 p) = None /\ pc (step dead false s2 p) p = Idle.
-Proof. intros dead l0 sched p c others G. apply release. right. exact G. Qed.
+  let s2 := exec dead false dbl (step dead false dbl s p) others in
+  snd (stepe dead false dbl s p) = EUReadOwn /\ holds s2 p = true
+  /\ snd (stepe dead false dbl s2 p) = EURmOk
+  /\ link (step dead false dbl s2 p) = None
+  /\ pc (step dead false dbl s2 p) p = (if dbl p then UStart else Idle).
+Proof. intros dead dbl l0 sched p c others G. apply release. right. exact G. Qed.
 Print Assumptions holder_can_release.
 
 (** a lock left by a dead process (or a free one) is acquired by a live idle contender that runs alone,
     within 5 of its own primitive calls, from ANY state; [clean] is True exactly when the path was free *)
-Theorem single_contender_acquires_stale : forall (dead : pid -> bool) (cas : bool) (s : st) p,
+Theorem single_contender_acquires_stale : forall (dead : pid -> bool) (cas : bool) (dbl : pid -> bool) (s : st) p,
   dead p = false -> pc s p = Idle ->
   (link s = None \/ exists q, link s = Some q /\ dead q = true) ->
-  exists k c, k <= 5 /\ pc (exec dead cas s (repeat p k)) p = Held c
-              /\ link (exec dead cas s (repeat p k)) = Some p
+  exists k c, k <= 5 /\ pc (exec dead cas dbl s (repeat p k)) p = Held c
+              /\ link (exec dead cas dbl s (repeat p k)) = Some p
               /\ (c = true <-> link s = None).
 Proof. exact solo_acquires. Qed.
 Print Assumptions single_contender_acquires_stale.
 
 (** in the refuting run the robbed holder cannot release: its unlock() raises ValueError *)
+(* [dbl p]: p calls unlock() a second time after every release (a double release) -- all theorems hold for every [dbl] *)
 Theorem robbed_holder_cannot_release_refuted :
   exists (dead : pid -> bool) (l0 : option pid) (sched : list pid) (p q : pid),
-    let s := exec dead false (init l0) sched in
-    holds s p = true /\ snd (stepe dead false s p) = EUNotOwner q.
+    let s := exec dead false (fun _ => false) (init l0) sched in
+    holds s p = true /\ snd (stepe dead false (fun _ => false) s p) = EUNotOwner q.
 Proof. exists f21_dead, (Some 2), f21_sched, 1, 0. split; [apply f21_both_hold | exact f21_victim_cannot_release]. Qed.
 Print Assumptions robbed_holder_cannot_release_refuted.
 
@@ -83,25 +85,25 @@ Print Assumptions robbed_holder_cannot_release_refuted.
     but the link names [h]); everybody else is idle.  For every N and every interleaving: still at most one
     holder, and the link names it -- in the code as it is the pid written and compared is the caller's
     (os.getpid() at the time of the call), never one cached in the object *)
-Theorem mutex_with_inherited_lock_objects : forall (dead : pid -> bool) (h : pid) (us sched : list pid),
+Theorem mutex_with_inherited_lock_objects : forall (dead dbl : pid -> bool) (h : pid) (us sched : list pid),
   dead h = false ->
-  let s := exec dead false (init_fork None (Some h) us) sched in
+  let s := exec dead false dbl (init_fork None (Some h) us) sched in
   (forall p, holds s p = true -> link s = Some p /\ dead p = false)
   /\ (forall p q, holds s p = true -> holds s q = true -> p = q).
 Proof.
-  intros dead h us sched Hh. apply (inv_mutex dead false), exec_inv_wf, init_fork_wf; [|discriminate].
+  intros dead dbl h us sched Hh. apply (inv_mutex dead false), (exec_inv_wf dead false dbl), init_fork_wf; [|discriminate].
   intros h' E. inversion E; subst. exact Hh.
 Qed.
 Print Assumptions mutex_with_inherited_lock_objects.
 
 (** unlock() by a process whose pid is not the link content raises ValueError and leaves the link alone *)
-Theorem unlock_by_non_owner_refused : forall (dead : pid -> bool) (cas : bool) (s : st) p q,
+Theorem unlock_by_non_owner_refused : forall (dead : pid -> bool) (cas : bool) (dbl : pid -> bool) (s : st) p q,
   dead p = false -> pc s p = UStart -> link s = Some q -> q <> p ->
-  snd (stepe dead cas s p) = EUNotOwner q
-  /\ link (step dead cas s p) = Some q
-  /\ (forall r, r <> p -> pc (step dead cas s p) r = pc s r).
+  snd (stepe dead cas dbl s p) = EUNotOwner q
+  /\ link (step dead cas dbl s p) = Some q
+  /\ (forall r, r <> p -> pc (step dead cas dbl s p) r = pc s r).
 Proof.
-  intros dead cas s p q Hp Hpc Hl Hne. unfold step. rewrite (ustart_refused dead cas s p q Hp Hpc Hl Hne). cbn.
+  intros dead cas dbl s p q Hp Hpc Hl Hne. unfold step. rewrite (ustart_refused dead cas dbl s p q Hp Hpc Hl Hne). cbn.
   split; [reflexivity|]. split; [exact Hl|]. intros r Hr. apply upd_other, Hr.
 Qed.
 Print Assumptions unlock_by_non_owner_refused.
